@@ -269,7 +269,7 @@ func (c *Ctx) Fail(sig, clause string, detail interface{}) bool {
 		return false
 	}
 	c.vioSigs[sig]++
-	if c.vioSigs[sig] > 3 || len(c.violations) >= 40 {
+	if c.vioSigs[sig] > 2 || len(c.violations) >= 300 {
 		return true // enough artefacts for this signature
 	}
 	v := Violation{Property: c.ID, Signature: sig, Clause: clause, Detail: detail}
